@@ -159,17 +159,19 @@ pub struct FileCase {
     pub path: String,
 }
 
-const LIST: &str = "/verif/out/C14/elf_files.list";
+fn list_path() -> std::path::PathBuf {
+    crate::fw::verif_root().join("out/C14/elf_files.list")
+}
 
 /// Parent-side preparation: enumerate once, lanes read the list.
 pub fn prepare() {
     let files = enumerate_elf_files();
-    let _ = std::fs::create_dir_all("/verif/out/C14");
-    let _ = std::fs::write(LIST, files.join("\n"));
+    let _ = std::fs::create_dir_all(crate::fw::verif_root().join("out/C14"));
+    let _ = std::fs::write(list_path(), files.join("\n"));
 }
 
 pub fn system_elf_files(cap: usize) -> Vec<FileCase> {
-    let out: Vec<String> = match std::fs::read_to_string(LIST) {
+    let out: Vec<String> = match std::fs::read_to_string(list_path()) {
         Ok(s) => s.lines().map(|l| l.to_string()).collect(),
         Err(_) => enumerate_elf_files(),
     };
